@@ -122,6 +122,7 @@ class Project:
                         raise ValueError(f"duplicate contract {key}")
                     c.setdefault("sidecar", fn)
                     self.contracts[key] = c
+        importlib.import_module("contracts.tags").extend(self.contracts)
 
 
 def strip_docstring(node):
